@@ -54,6 +54,12 @@ func TestCheck(t *testing.T) {
 				run.Violation(fmt.Sprint(rec["case"]), fmt.Sprint(rec["sig"]), fmt.Sprint(rec["text"]), rec["detail"])
 			case "inconclusive":
 				run.Inconclusive(fmt.Sprint(rec["case"]) + ": " + fmt.Sprint(rec["text"]))
+			case "stats":
+				for k, v := range rec {
+					if f, ok := v.(float64); ok {
+						run.Count(k, int64(f))
+					}
+				}
 			case "run":
 				run.Eval(1)
 				run.Distinct(fmt.Sprint(rec["case"]) + fmt.Sprint(rec["signature"]))
@@ -91,7 +97,7 @@ func TestCheck(t *testing.T) {
 	})
 	run.CollectRaces()
 	run.Assume("sessions write disjoint key sets, so the per-key history has a single writer plus Get readers and Flush callers; a FAILED answer is modelled as 'no effect' (whether the failure itself was justified is C04's question)")
-	run.Finish("child processes built with -race: 2-16 Modify sessions (own direct stream or own gRPC connection each) looping negotiate -> announce rising/equal/lower ids -> batches of ADD/REPLACE/DELETE on their own keys -> occasional disconnect/reconnect (half of them in the middle of a large batch: unread, after one answer, or after the server ended the RPC on an unstamped operation with the rest of the batch behind it), with 2-4 Get readers and 0-2 override Flush callers running concurrently, scheduling perturbed at the repository's yield points. Deciding monitors: race detector (reports with a frame in the repository), per-RPC watchdog + quiescent goroutine-dump classifier (deadlock), process exit (panic), porcupine over the recorded history - per key a register with writes/deletes/flushes/reads from Get, and the announcements as a max-register - and at quiescence: hooked reference counters == referrers recounted, nothing held, reported id == maximum announced, exactly the entitled session can program. Plus, per child, scenarios with a Get whose reader has stopped part-way through one instance and a Flush of that instance queued behind it: negotiation, election, operations, Get and Flush that do not involve that instance must all be answered before the reader resumes; and scenarios on a server with resolved-entry and post-change hooks registered whose primary programs complete chains into all instances while Flushes of all instances and contents snapshots run continuously (every request answered). Distinct = by run and its interleaving signature (order in which sessions first became primary)", 5, false)
+	run.Finish("child processes built with -race: 2-16 Modify sessions (own direct stream or own gRPC connection each) looping negotiate -> announce rising/equal/lower ids -> batches of ADD/REPLACE/DELETE on their own keys -> occasional disconnect/reconnect (half of them in the middle of a large batch: unread, after one answer, or after the server ended the RPC on an unstamped operation with the rest of the batch behind it), with 2-4 Get readers and 0-2 override Flush callers running concurrently, scheduling perturbed at the repository's yield points. Deciding monitors: race detector (reports with a frame in the repository), per-RPC watchdog + quiescent goroutine-dump classifier (deadlock), process exit (panic), porcupine over the recorded history - per key a register with writes/deletes/flushes/reads from Get, and the announcements as a max-register - and at quiescence: hooked reference counters == referrers recounted, nothing held, reported id == maximum announced, exactly the entitled session can program. Plus, per child, scenarios with a Get whose reader has stopped part-way through one instance and a Flush of that instance queued behind it: negotiation, election, operations, Get and Flush that do not involve that instance must all be answered before the reader resumes; and scenarios on a server with resolved-entry and post-change hooks registered whose primary programs complete chains into all instances while Flushes of all instances and contents snapshots run continuously (every request answered); two writers adding the same absent prefix / label at the same moment with payloads that set different optional leaves (the installed entry is one of the two acknowledged payloads, never a mixture); an ADD re-pointing an installed entry at a group that another writer deletes at the same moment (if it was not programmed the entry is unchanged). Distinct = by run and its interleaving signature (order in which sessions first became primary)", 5, false)
 }
 
 // ---------------------------------------------------------------- child side
@@ -191,6 +197,10 @@ func TestChild(t *testing.T) {
 	if caseID := fmt.Sprintf("child-%d/same-key-writers", b); sp.Case == "" || sp.Case == caseID {
 		wr.InFlight(caseID)
 		sameKeyScenario(wr, caseID, rand.New(rand.NewSource(sp.Seed*1000099+int64(b)*149)), sp.Tier == "thorough")
+	}
+	if caseID := fmt.Sprintf("child-%d/repoint-vs-group-delete", b); sp.Case == "" || sp.Case == caseID {
+		wr.InFlight(caseID)
+		replaceVsGroupDelete(wr, caseID, rand.New(rand.NewSource(sp.Seed*1000117+int64(b)*151)), sp.Tier == "thorough")
 	}
 	for k := 0; k < 4; k++ {
 		caseID := fmt.Sprintf("child-%d/stall-%d", b, k)
